@@ -58,12 +58,17 @@ def main():
     if args:
         ids = [i for i in ids if i in args]
     n_bad = 0
+    results = []
     with cf.ThreadPoolExecutor(4) as ex:
         for rid, status, lines in ex.map(one, ids):
-            print("%-10s %s" % (rid, status))
+            print("%-10s %s" % (rid, status), flush=True)
             for l in lines:
-                print(l)
+                print(l, flush=True)
             n_bad += status != "SILENT"
+            results.append({"id": rid, "status": status, "lines": lines})
+    if not args:
+        with open(os.path.join(VERIF, "refactors", "RESULTS.json"), "w") as fh:
+            json.dump(results, fh, indent=1)
     print("%d refactorings, %d not silent" % (len(ids), n_bad))
 
 
